@@ -652,4 +652,65 @@ def writeVectoredAllAtLoop : Nat → AtDst → Nat → List Bytes → Nat → Na
 def writeVectoredAllAt (d : AtDst) (pos : Nat) (bufs : List Bytes) : Res Unit × AtDst :=
   writeVectoredAllAtLoop (sumNat (bufs.map List.length) + 1) d pos bufs (sumNat (bufs.map List.length)) 0
 
+
+/-! ## read_to_string / read_to_string_at (read/ext.rs `after_read_to_string`) -/
+
+def inRange (b lo hi : UInt8) : Bool := lo ≤ b && b ≤ hi
+
+/-- well-formed UTF-8 (`String::from_utf8` succeeds): Unicode table 3-7 — no overlong forms, no
+surrogates, nothing above U+10FFFF, no truncated character -/
+def validUtf8 : Bytes → Bool
+  | [] => true
+  | b0 :: rest =>
+    if b0 < 0x80 then validUtf8 rest
+    else if inRange b0 0xC2 0xDF then
+      match rest with
+      | b1 :: r => inRange b1 0x80 0xBF && validUtf8 r
+      | _ => false
+    else if inRange b0 0xE0 0xEF then
+      match rest with
+      | b1 :: b2 :: r =>
+        (if b0 = 0xE0 then inRange b1 0xA0 0xBF
+          else if b0 = 0xED then inRange b1 0x80 0x9F
+          else inRange b1 0x80 0xBF) && inRange b2 0x80 0xBF && validUtf8 r
+      | _ => false
+    else if inRange b0 0xF0 0xF4 then
+      match rest with
+      | b1 :: b2 :: b3 :: r =>
+        (if b0 = 0xF0 then inRange b1 0x90 0xBF
+          else if b0 = 0xF4 then inRange b1 0x80 0x8F
+          else inRange b1 0x80 0xBF) && inRange b2 0x80 0xBF && inRange b3 0x80 0xBF && validUtf8 r
+      | _ => false
+    else false
+
+/-- outcome of `read_to_string`: `invalidData` = `ErrorKind::InvalidData` (the bytes are not UTF-8) -/
+inductive StrRes where
+  | ok (n : Nat)
+  | invalidData
+  | err (e : IoErr)
+  | panic
+  | ub
+  | fuel
+  deriving Repr, DecidableEq
+
+/-- `after_read_to_string(res, buf)`: after an I/O error the bytes read so far are kept when they are
+UTF-8 and the buffer is *cleared* otherwise; after `Ok`, invalid bytes give `InvalidData` and a fresh
+empty `String` -/
+def afterReadToString (res : Res Nat) (b : VBuf) : StrRes × VBuf :=
+  match res with
+  | .ok n => if validUtf8 b.data then (.ok n, b) else (.invalidData, ⟨[], 0⟩)
+  | .err e => if validUtf8 b.data then (.err e, b) else (.err e, { b with data := [] })
+  | .panic => (.panic, b)
+  | .ub => (.ub, b)
+  | .fuel => (.fuel, b)
+
+/-- `AsyncReadExt::read_to_string`: `read_to_end` on the bytes of the `String`, then one validation -/
+def readToString (fuel : Nat) (r : Rd) (b : VBuf) : StrRes × Rd × VBuf :=
+  ((afterReadToString (readToEnd fuel r b).1 (readToEnd fuel r b).2.2).1, (readToEnd fuel r b).2.1,
+    (afterReadToString (readToEnd fuel r b).1 (readToEnd fuel r b).2.2).2)
+
+/-- `AsyncReadAtExt::read_to_string_at` -/
+def readToStringAt (src : Bytes) (b : VBuf) (pos : Nat) : StrRes × VBuf :=
+  afterReadToString (readToEndAt src b pos).1 (readToEndAt src b pos).2
+
 end Compio.Io
